@@ -9,6 +9,7 @@ pub enum Scenario {
     Rt(crate::fam_rt::RtScn),
     HistW(crate::fam_histw::HwScn),
     Crash(crate::fam_crash::CrashScn),
+    CrashPath(crate::fam_crash::CrashPathScn),
     WFault(crate::fam_wfault::WfScn),
     RFault(crate::fam_rfault::RfScn),
     Corrupt(crate::fam_corrupt::CorScn),
@@ -23,6 +24,7 @@ impl Scenario {
             Scenario::Rt(_) => "RT",
             Scenario::HistW(_) => "HIST-W",
             Scenario::Crash(_) => "CRASH",
+            Scenario::CrashPath(_) => "CRASH-PATH",
             Scenario::WFault(_) => "WFAULT",
             Scenario::RFault(_) => "RFAULT",
             Scenario::Corrupt(_) => "CORRUPT",
@@ -39,6 +41,7 @@ pub fn execute(s: &Scenario, ctx: &mut Ctx) {
         Scenario::Rt(x) => crate::fam_rt::execute(x, ctx),
         Scenario::HistW(x) => crate::fam_histw::execute(x, ctx),
         Scenario::Crash(x) => crate::fam_crash::execute(x, ctx),
+        Scenario::CrashPath(x) => crate::fam_crash::execute_path(x, ctx),
         Scenario::WFault(x) => crate::fam_wfault::execute(x, ctx),
         Scenario::RFault(x) => crate::fam_rfault::execute(x, ctx),
         Scenario::Corrupt(x) => crate::fam_corrupt::execute(x, ctx),
